@@ -27,7 +27,7 @@ func parseJSON(b []byte) interface{} {
 }
 
 func checkC08(c *hx.Ctx) {
-	c.Rule("client-built create/update/recover requests and models over all key types and both hash algorithms: (1) 6 re-serializations each (member order, whitespace, \\u escapes, number spellings) must parse to the same suffix / pass the same hash checks / resolve identically; (2) commitment(key)==hash(decoded reveal(key)) via the library vs ref; (3) IsValidModelMultihash accepted exactly when the multihash is H_alg(JCS(model)) for the algorithm it names (right hash, other algorithm, truncated digest, wrong length prefix, unknown code, hash of non-canonical bytes, bit flips); (4) unanchored long-form DIDs: valid one resolves, every single-character substitution (3 substitutes per position) / insertion / deletion of the encoded segment, non-canonical re-encodings every single-member alteration of suffix data and delta, and every alteration of the suffix segment (also through a handler configured with label, domain and alias) must be rejected; (5) an anchored create whose well-formed delta was substituted resolves to an empty document without update commitment and the substituted key cannot update it; non-trivial = alteration or re-serialization that differs bytewise from the original; distinct = distinct altered inputs")
+	c.Rule("client-built create/update/recover requests and models over all key types and both hash algorithms: (1) 6 re-serializations each (member order, whitespace, \\u escapes, number spellings) must parse to the same suffix / pass the same hash checks / resolve identically; (2) commitment(key)==hash(decoded reveal(key)) via the library vs ref; (3) IsValidModelMultihash accepted exactly when the multihash is H_alg(JCS(model)) for the algorithm it names (right hash, other algorithm, truncated digest, wrong length prefix, unknown code, hash of non-canonical bytes, bit flips); (4) unanchored long-form DIDs: valid one resolves, every single-character substitution (3 substitutes per position) / insertion / deletion of the encoded segment, non-canonical re-encodings every single-member alteration of suffix data and delta, and every alteration of the suffix segment (also through a handler configured with label, domain and alias) must be rejected; (5) an anchored create whose well-formed delta was substituted resolves to an empty document without update commitment and the substituted key cannot update it, and an anchored operation whose reveal value is not the hash of the key in its signed data has no effect; non-trivial = alteration or re-serialization that differs bytewise from the original; distinct = distinct altered inputs")
 	nCases := c.N(400, 4000)
 	root := c.Rng("cases")
 	seeds := make([]uint64, nCases)
@@ -376,6 +376,26 @@ func checkC08(c *hx.Ctx) {
 				return
 			}
 			c.Count("anchored_create_with_substituted_delta")
+			// the reveal value binds the key: an anchored update / recover / deactivate whose reveal value is the hash of the
+			// owner's key while its signed data names (and is signed by) another key has no effect
+			okCreate := Place(u.MkCreate("create", ref.DeltaOK), 1000, 0, "ref0", 0)
+			k2 := []interface{}{patchAddKeys(pubKeyEntry("injected", u.X[1], "authentication"))}
+			for _, forged := range []*ref.Op{
+				u.MkSigned("update-reveal-of-owner-key-signed-data-of-another", "update", u.U[0], "", u.X[1].Commitment(code), k2, SignedOpts{SignedKey: u.X[0], SigningKey: u.X[0]}),
+				u.MkSigned("recover-reveal-of-owner-key-signed-data-of-another", "recover", u.R[0], u.X[1].Commitment(code), u.X[0].Commitment(code), k2, SignedOpts{SignedKey: u.X[0], SigningKey: u.X[0]}),
+				u.MkSigned("deactivate-reveal-of-owner-key-signed-data-of-another", "deactivate", u.R[0], "", "", nil, SignedOpts{SignedKey: u.X[0], SigningKey: u.X[0]}),
+			} {
+				H := []*ref.Op{okCreate, Place(forged, 1010, 0, "ref1", 0)}
+				c.Eval()
+				st, merr := ref.Resolve(H, ref.ResolveOpts{})
+				rm, err := SUTResolve(pcu, u.Suffix, H, nil)
+				if want, got := stKey(st, merr), rmKey(rm, err); want != got {
+					c.Violation("C08 an anchored "+forged.Type+" whose reveal value is not the hash of the key in its signed data took effect\n   model:   "+want+"\n   library: "+got,
+						map[string]interface{}{"suffix": u.Suffix, "history": replayOps(H), "model": want, "library": got})
+					return
+				}
+				c.Count("anchored_reveal_value_not_binding_key")
+			}
 		}
 		if i < 2 {
 			c.Sample(2, map[string]interface{}{"long_form_did": didPrefix + seg, "key_type": types[0], "multihash": code})
